@@ -24,6 +24,7 @@ type choice struct {
 	Name string `json:"name"`
 	K    int    `json:"k"`
 	N    int    `json:"n"`
+	used bool
 }
 type witness struct {
 	Harness string           `json:"harness"`
@@ -35,7 +36,6 @@ type witness struct {
 var (
 	w        witness
 	seen     = map[string]int{}
-	choiceAt int
 	failed   []string
 	stdout   strings.Builder
 )
@@ -75,14 +75,15 @@ func Choice(name string, n int) int {
 	if n <= 1 {
 		return 0
 	}
-	if choiceAt < len(w.Choices) {
-		c := w.Choices[choiceAt]
-		choiceAt++
-		if c.Name != name || c.N != n {
-			fmt.Printf("SVMISMATCH choice %q/%d, witness has %q/%d\n", name, n, c.Name, c.N)
+	// witnesses list choices in path order; they are matched by name
+	for i := range w.Choices {
+		c := &w.Choices[i]
+		if c.Name == name && c.N == n && !c.used {
+			c.used = true
+			return c.K
 		}
-		return c.K
 	}
+	fmt.Printf("SVMISMATCH choice %q/%d not in witness\n", name, n)
 	return 0
 }
 
